@@ -17,6 +17,11 @@ CONSTANTS Table <- McTableSeqT
  SeqMsgs <- McSeqMsgsT
  SeqConfirms <- McSeqConfirmsT
  SeqMix <- McSeqMixT
+ RxOn = FALSE
+ Answering <- NoAnswering
+ RxMax = 0
+ RxBystander = FALSE
+ RxStallOut = FALSE
  Dev <- NoDev
 VIEW SeqView
 INVARIANTS TypeOK UniqueRows NodeAlive NoDeadlock AllocBounded SeqCacheWaiting SeqConfirmsWaiting SeqChainLinear
